@@ -10,7 +10,8 @@ by the executed test double for a seeded subset, else the vector handed to the
 environment -- is recorded and validated by TLC (PosixWords_Gen mode validate, M4):
 faithful iff Split(cmdline) is "ok" and its words equal the argv.
 Spec sanity (not the pydra oracle): the machine is stepped by TLC over every alphabet
-string up to length 3 (thorough: 4) and its result compared with /bin/sh.
+string up to length 3 (thorough: a seeded half of the strings up to length 4) and its
+result compared with /bin/sh.
 """
 import shutil
 import tempfile
@@ -37,7 +38,7 @@ def sanity_vs_sh(ctx, recs):
     def one(chunk):
         return sc.sh_split(["".join(chr(c) for c in r["s"]) for r in chunk], work)
 
-    with ThreadPoolExecutor(max_workers=6) as ex:
+    with ThreadPoolExecutor(max_workers=8) as ex:
         res = [x for part in ex.map(one, chunks) for x in part]
     shutil.rmtree(work, ignore_errors=True)
     bad = []
@@ -71,17 +72,19 @@ def run(ctx):
     t0 = time.time()
     if ctx.thorough:
         jobs = [("chars", 8, {"minl": 1, "maxl": 3}),
-                ("sample", 4, {"seed": ctx.seed, "nsamples": 8000, "chars": True})]
-        n_exec, maxl, shn = 3000, 4, 8
+                ("sample", 4, {"seed": ctx.seed, "nsamples": 5000, "chars": True})]
+        n_exec = 1500
     else:
         jobs = [("chars", 1, {"minl": 1, "maxl": 2}),
                 ("chars", NSH, {"minl": 3, "maxl": 3}, [ctx.seed % NSH]),
                 ("sample", 1, {"seed": ctx.seed, "nsamples": 400, "chars": True})]
-        n_exec, maxl, shn = 120, 3, 1
-    with ThreadPoolExecutor(max_workers=2) as ex:
-        fut = ex.submit(sc.posix_strings, ctx, maxl, shn)
+        n_exec = 120
+    with ThreadPoolExecutor(max_workers=3) as ex:
+        futs = [ex.submit(sc.posix_strings, ctx, 3)]            # every string up to length 3
+        if ctx.thorough:                                         # + a seeded half of the length-4 strings
+            futs.append(ex.submit(sc.posix_strings, ctx, 4, 8, [sh for sh in range(8) if sh % 2 == ctx.seed % 2], 4))
         cases = sc.generate_many(ctx, jobs, max_procs=8 if ctx.thorough else 3)
-        strings = fut.result()
+        strings = [r for f in futs for r in f.result()]
     t1 = time.time()
     sanity_vs_sh(ctx, strings)
     t2 = time.time()
